@@ -42,6 +42,21 @@ CLAIMED = {
          "Generated schemas (int / auto-increment / composite with key order != column order / varchar / 3-column keys, nullable columns, 16 column kinds) x initial rows x DML programs (1-3 branches, autocommit or explicit local transactions, INSERT single/multi-row, UPDATE, DELETE, upsert hit/miss, parameters or literals, 0/1/many rows) x undo configurations (serializer, compressor, validation, only-care-update-columns) x delivery (immediately / after unrelated committed transactions). After the coordinator's BranchRollback round the committed tables must equal the pre-transaction snapshot, no undo_log row of the xid may remain, and 'rollbacked' must be answered iff so.",
          "MySQL is harness/minimysql (own conformance tests through the real go-sql-driver); InnoDB specifics are not modelled. A failed statement ends the business function (application-style error handling).",
          "DESIGN.md §4 C01"),
+ "C02": ("fault_enumeration",
+         "runtime monitor with fault injection at the database wire protocol and at the coordinator: every command position of a program's baseline journal x {error, connection dropped before/after}, registration refused/failed/unanswered, failing branch reports; offline invariants over the merged database journal and coordinator log",
+         "Per (program, fault): register reply < undo-log insert < COMMIT on one connection with the granted branch id; business rows durable iff the undo row is durable; on failure the caller gets an error, nothing is durable, a registered branch is reported PhaseOne_Failed, and no pooled connection is left idle inside a transaction.",
+         "Fault positions come from a fault-free baseline run of the same program on a fresh table. A failing COMMIT is modelled as InnoDB does (nothing committed, transaction ended). SIGKILL crash points are not part of the quick tier.",
+         "DESIGN.md §4 C02"),
+ "C03": ("exploration",
+         "runtime monitor: lock keys parsed independently from BranchRegister / GlobalLockQuery frames in the fake coordinator's log vs. the rows each COMMIT made durable in the fake database's journal; scripted lock-query answers; two overlapping global transactions under scripted reply orders",
+         "Every durable row must be named (table, pk values) by the lock key of the registration preceding its commit, with one key text per row across the run; SELECT ... FOR UPDATE returns rows only after a lockable answer naming them and releases its local locks on conflict; no commit while the coordinator's lock table has the row held by another xid or after a refused registration.",
+         "Lock-key grammar and lock-table semantics are those of Seata (keys opaque to the coordinator). Interleavings of the two-transaction part are limited to orders the database's row locks permit.",
+         "DESIGN.md §4 C03"),
+ "C18": ("exploration",
+         "runtime monitor: ground-truth matched/changed rows recorded by the fake database for the business command vs. the images in the undo_log row read with an independent JSON reader",
+         "One intercepted statement per case (UPDATE/DELETE with generated WHERE trees incl. parentheses, IN, BETWEEN, ORDER BY/LIMIT and parameters at every position; INSERT 1-4 rows; upserts; pk-changing updates) over five key shapes and both only-care-update-columns settings: changed rows ⊆ image rows ⊆ matched rows, exact field values, required columns present, pk changes rejected, rejected statements leave nothing durable.",
+         "json serializer without compression; minimysql's record of matched/changed rows is the ground truth.",
+         "DESIGN.md §4 C18"),
 }
 
 NOT_YET = "check not implemented yet in this revision of the framework (work in progress; see DESIGN.md §4 for the planned monitor)"
